@@ -193,6 +193,14 @@ func buildReverseDFA(
 	revDFAConfig := dfaConfig
 	revDFAConfig.BreakAtMatch = false
 
+	// The reversed NFA carries no look-around states (they become plain epsilon
+	// edges), so for patterns with \b, \B or anchors a reverse scan would accept
+	// starts the assertions forbid. Without a reverse DFA the callers determine
+	// the span with the forward engines.
+	if hasWordBoundary(re) || hasAnchorAssertions(re) {
+		return result
+	}
+
 	switch result.finalStrategy {
 	case UseDFA:
 		// Skip for non-greedy patterns: forward DFA always finds leftmost-longest,
